@@ -15,6 +15,7 @@ func init() {
 	register(&Property{
 		ID: "C10",
 		Explanation: "Decides in request.buildHTTP / Runtime: R10.1 the URL text handed to http.NewRequestWithContext is path.Join(basePath.Path, pattern.Path) into which every placeholder is substituted AFTER the join by strings.ReplaceAll with url.PathEscape of the value (so a value can neither be cleaned away nor add a segment), plus the reinstated trailing slash which is appended only when the pattern ended in one; " +
+			"Round 12: R10.3 the scheme choice depends on the list of schemes only. " +
 			"R10.2 the query is only ever assigned from url.Values.Encode() of the request's query, static parameters reach it only when the caller has not set that name (key presence in the caller's parameters), and pattern values replace base-path values; R10.3 the scheme comes from pickScheme (transport's own list first), selectScheme scans the WHOLE list for https and returns an element of it, host comes from the runtime; " +
 			"R10.4 every error of URL parsing, request construction and parameter setting is returned. " +
 			"R10.2 also: the caller's parameters are read for the static merge only after the auth writer ran; R10.3 also: client.New stores the base path verbatim (at most a leading slash is added). " +
